@@ -132,3 +132,14 @@ func (c *UDPConn) WriteToUDPAddrPort(b []byte, addr netip.AddrPort) (int, error)
 
 func (c *UDPConn) SetReadBuffer(int) error  { return nil }
 func (c *UDPConn) SetWriteBuffer(int) error { return nil }
+
+// HoldPort makes another socket of the simulated host occupy proto/port (as a foreign program or
+// another part of the application would); the returned function releases it.
+func (n *Network) HoldPort(proto string, port int) (release func(), err error) {
+	s, err := n.newSock(proto, net.IPv4zero, port, false)
+	if err != nil {
+		return nil, err
+	}
+	s.listening = true
+	return func() { s.closed = true }, nil
+}
